@@ -194,7 +194,11 @@ RegisterQuorum ==
     /\ UNCHANGED <<ctl, env, acked, nextW, calls>>
 
 \* Start(a): only the signalled replica; attaches it RW (no sync, no snapshot)
-Start(a, cf) ==
+\* cs = the clone status the replica reports while the controller polls it ("" / "NA" /
+\* "completed": it may serve; "error": a failed clone -- the replica is attached, found failed,
+\* removed again and the start fails; the frontend is still down then, so the removal leaves the
+\* election state as it is)
+StartC(a, cf, cs) ==
     /\ Called("Start", [a |-> a, cf |-> cf])
     /\ served' = ""
     /\ IF Members # {} THEN      \* already started: no-op
@@ -208,6 +212,15 @@ Start(a, cf) ==
             /\ maxRev' = "" /\ signalled' = FALSE      \* a new election is needed
             /\ UNCHANGED <<cmode, readOnly, rwCount, checkpoint, reg, pcAdd, monWait, monNote, env,
                            acked, nextW, calls>>
+       ELSE IF cs = "error" THEN
+            /\ res' = "refused" /\ sig' = <<>>
+            /\ reg' = [reg EXCEPT ![a] = NoReg]
+            /\ monNote' = [monNote EXCEPT ![a] = @ + 1]     \* its monitor was started and is notified
+            \* (the backend is only told to stop monitoring: the replica stays open, write-only)
+            /\ rstate' = [rstate EXCEPT ![a] = "open"]
+            /\ rmode' = [rmode EXCEPT ![a] = "WO"]
+            /\ UNCHANGED <<cmode, readOnly, rwCount, checkpoint, maxRev, signalled, pcAdd, monWait,
+                           rrev, rreb, rsnaps, rcp, rlog, rsnapAt, acked, nextW, calls>>
        ELSE LET cm == [cmode EXCEPT ![a] = "RW"]
             IN /\ cmode' = cm
                /\ rstate' = [rstate EXCEPT ![a] = "open"]
@@ -221,6 +234,8 @@ Start(a, cf) ==
                /\ acked' = acked \cap rlog[a]
                /\ UNCHANGED <<reg, maxRev, signalled, pcAdd, monNote, rrev, rreb, rsnaps, rlog,
                               rsnapAt, nextW, calls>>
+
+Start(a, cf) == StartC(a, cf, "")
 
 -----------------------------------------------------------------------------
 (* Membership: add (two sections), promote, remove, set mode (C03 C07 C18) *)
